@@ -49,6 +49,7 @@ def entry_points():
         return c
     ep = {
         'Update.parse': lambda b: Update.parse(None, b, True),
+        'Update.parse(add-path ipv4)': lambda b: Update.parse(None, b, True, {'ipv4': True}),
         'Update.parse(asn2)': lambda b: Update.parse(None, b, False),
         'Update.parse(addpath)': lambda b: Update.parse(None, b, True, {'ipv4': True, 'ipv6': True, 'vpnv4': True, 'ipv4_lu': True}),
         'Open.parse': lambda b: Open().parse(b),
@@ -196,13 +197,63 @@ def task(args):
                 for f in FILLS:
                     check('LinkState.unpack', struct.pack('!HH', t, ln + 3) + fill(ln, f), 'tlv %d truncated' % t)
             # inside an UPDATE, after a BGP-LS MP_REACH (protocol id known)
-            mp = struct.pack('!HBB', 16388, 71, 4) + b'\x0a\x00\x00\x01\x00' + struct.pack('!HH', 1, 25) + b'\x02' + b'\x00' * 8 + \
-                struct.pack('!HH', 256, 12) + struct.pack('!HHI', 512, 4, 65000) + struct.pack('!HH', 513, 0)
+            mp = struct.pack('!HBB', 16388, 71, 4) + b'\x0a\x00\x00\x01\x00' + struct.pack('!HH', 1, 21) + b'\x02' + b'\x00' * 7 + b'\x01' + \
+            struct.pack('!HH', 256, 8) + struct.pack('!HHI', 512, 4, 65000)
             for ln in (0, 1, 4, 7, 8):
                 ls = struct.pack('!HH', t, ln) + fill(ln, None)
                 body = b'\x00\x00' + struct.pack('!H', len(mp) + 4 + len(ls) + 4) + struct.pack('!BBH', 0x90, 14, len(mp)) + mp + \
                     struct.pack('!BBH', 0x90, 29, len(ls)) + ls
                 check('Update.parse', body, 'bgp-ls attr tlv %d' % t, must_not_raise=True)
+    elif kind == 'v4tails':
+        # every IPv4 withdrawn-routes / NLRI field that ends in an arbitrary tail of <= 2 octets, behind nothing, a good prefix, a
+        # path identifier, a path identifier + good prefix - with and without ADD-PATH for IPv4 unicast
+        lo, hi = args[1], args[2]
+        good = b'\x18\x0a\x01\x01'
+        pid = b'\x00\x00\x00\x07'
+        tails = [bytes(t) for n_ in range(0, 3) for t in itertools.product(range(256), repeat=n_)][lo:hi]
+        for tail in tails:
+            for ctx in (b'', good, pid, pid + good):
+                field = ctx + tail
+                for body in (struct.pack('!H', len(field)) + field + b'\x00\x00', b'\x00\x00\x00\x00' + field):
+                    for name in ('Update.parse', 'Update.parse(add-path ipv4)'):
+                        check(name, body, 'ipv4 field tail', must_not_raise=True)
+    elif kind == 'nested':
+        # TLVs nested in themselves (depth 2..40, the inner TLV at several offsets of the value, innermost complete or cut short):
+        # work must stay linear in the input
+        for t in args[1]:
+            for depth in (2, 5, 20, 40):
+                for pad in (0, 4, 6, 8, 12, 22):
+                    for cut in (False, True):
+                        inner = struct.pack('!HH', t, 4) + b'\x01\x02\x03\x04'
+                        if cut:
+                            inner = inner[:5]
+                        for _ in range(depth):
+                            val = b'\x00' * pad + inner
+                            if len(val) > 4000:
+                                break
+                            inner = struct.pack('!HH', t, len(val)) + val
+                        if len(inner) > 4000:
+                            continue
+                        for name in ('LinkState.unpack', 'LinkState.unpack(proto=2)'):
+                            check(name, inner, 'tlv %d nested in itself' % t)
+                        mp = struct.pack('!HBB', 16388, 71, 4) + b'\x0a\x00\x00\x01\x00' + struct.pack('!HH', 1, 21) + b'\x02' + b'\x00' * 7 + b'\x01' + \
+            struct.pack('!HH', 256, 8) + struct.pack('!HHI', 512, 4, 65000)
+                        body = b'\x00\x00' + struct.pack('!H', len(mp) + 4 + len(inner) + 4) + struct.pack('!BBH', 0x90, 14, len(mp)) + mp + \
+                            struct.pack('!BBH', 0x90, 29, len(inner)) + inner
+                        if len(body) <= 4077:
+                            check('Update.parse', body, 'bgp-ls attr tlv nested in itself', must_not_raise=True)
+    elif kind == 'hugetlv':
+        # one TLV of 2000 / 3900 octets inside the BGP-LS attribute, a malformed ORIGIN behind it (the error path sees the big value)
+        mp = struct.pack('!HBB', 16388, 71, 4) + b'\x0a\x00\x00\x01\x00' + struct.pack('!HH', 1, 21) + b'\x02' + b'\x00' * 7 + b'\x01' + \
+            struct.pack('!HH', 256, 8) + struct.pack('!HHI', 512, 4, 65000)
+        for t in args[1]:
+            for ln in (2000, 3900):
+                for f in FILLS:
+                    ls = struct.pack('!HH', t, ln) + fill(ln, f)
+                    for tail in (b'', struct.pack('!BBB', 0x40, 1, 2) + b'\x00\x00'):
+                        a = struct.pack('!BBH', 0x90, 14, len(mp)) + mp + struct.pack('!BBH', 0x90, 29, len(ls)) + ls + tail
+                        body = b'\x00\x00' + struct.pack('!H', len(a)) + a
+                        check('Update.parse', body, 'bgp-ls attr huge tlv%s' % (' + bad origin' if tail else ''), must_not_raise=True)
     elif kind == 'bgpls':
         for nt in range(0, 8):
             for proto in (0, 1, 2, 3, 4, 5, 6, 7):
@@ -283,6 +334,12 @@ def run(tier, seed):
     for i in range(0, len(lt), 2):
         tasks.append(('lstlv', lt[i:i + 2], maxlen))
     tasks.append(('lstlv', [0, 255, 1000, 65535], maxlen))
+    for i in range(0, len(lt), 8):
+        tasks.append(('nested', lt[i:i + 8]))
+        tasks.append(('hugetlv', lt[i:i + 8]))
+    ntails = 1 + 256 + 65536
+    for lo in range(0, ntails, 2200):
+        tasks.append(('v4tails', lo, lo + 2200))
     tasks.append(('bgpls',))
     tasks.append(('prefixsid',))
     corpus = seeds.unit_test_bytes()
@@ -307,7 +364,7 @@ def run(tier, seed):
                 'of length 0..2 (also inside Update.parse); every attribute type 0..255 x 7 flag octets x declared-length variants x 6 '
                 'values; every registered link-state TLV type (%d) x length 0..%d x 3 fills x every single-octet override from '
                 '{0,1,2,3,4,5,8,255} at every position x 3 protocol ids; BGP-LS NLRI types x protocol x descriptor TLVs x length 0..20; '
-                'Prefix-SID TLV types x length 0..40; OPEN optional parameter x capability code 0..255 x length 0..8; every byte string '
+                'Prefix-SID TLV types x length 0..40; every link-state TLV nested in itself (depth 2..40, 6 offsets, innermost whole / cut) and as one 2000- / 3900-octet TLV followed by a malformed ORIGIN; every IPv4 NLRI / withdrawn field ending in any tail of <= 2 octets behind 4 contexts, with and without ADD-PATH; OPEN optional parameter x capability code 0..255 x length 0..8; every byte string '
                 'of the unit tests (%d seeds) with all single-octet mutations and truncations, as UPDATE body and as the value of 10 '
                 'attribute types; every seed padded/repeated to 4096 octets. Verdict by the deterministic step meter (300 + 60*len). '
                 'distinct_nontrivial = distinct (entry point, input class, outcome kind)' % (len(entry_points()), len(lt), maxlen, len(corpus)),
